@@ -10,6 +10,7 @@ import (
 	"runtime"
 	"runtime/debug"
 	"sort"
+	"strconv"
 	"strings"
 	"testing/synctest"
 	"time"
@@ -433,6 +434,10 @@ func (w *world) execOp(op OpSpec, tk *task, fresh bool) (out *Outcome) {
 	}
 
 	p := w.pickPath(op, fresh || op.Kind == "parsequery")
+	if op.Via == "new" {
+		// Another Path value over the same AST.
+		p = path.New(p.AST)
+	}
 	var anc map[ast.Node][]string
 	if fresh || op.Kind == "parsequery" {
 		anc, _ = walkAST(p.AST)
@@ -480,10 +485,35 @@ func (w *world) execOp(op OpSpec, tk *task, fresh bool) (out *Outcome) {
 		// input, never on which object carries it or on what that object
 		// held during an earlier call.
 		priv := deepCopy(doc)
+		// The caller's own variables map too: same map object, values
+		// changed in place between the calls.
+		mkOpts := func(vars exec.Vars) []exec.Option {
+			var o []exec.Option
+			if vars != nil {
+				o = append(o, exec.WithVars(vars))
+			}
+			if op.Silent {
+				o = append(o, exec.WithSilent())
+			}
+			if op.TZ {
+				o = append(o, exec.WithTZ())
+			}
+			return o
+		}
+		var privVars exec.Vars
+		if op.Vars >= 0 {
+			privVars = exec.Vars(deepCopy(map[string]any(w.vars[op.Vars])).(map[string]any))
+		}
+		opts := mkOpts(privVars)
 		r1, e1 := p.Query(ctx, priv, opts...)
 		rekey(priv)
+		bumpVars(privVars)
 		r2, e2 := p.Query(ctx, priv, opts...)
-		r3, e3 := p.Query(ctx, deepCopy(priv), opts...)
+		var freshVars exec.Vars
+		if privVars != nil {
+			freshVars = exec.Vars(deepCopy(map[string]any(privVars)).(map[string]any))
+		}
+		r3, e3 := p.Query(ctx, deepCopy(priv), mkOpts(freshVars)...)
 		// (Private copies live at different addresses in every call, so
 		// keyvalue ids are compared by rank, and paths that turn ids into
 		// plain values are not compared at all.)
@@ -499,18 +529,34 @@ func (w *world) execOp(op OpSpec, tk *task, fresh bool) (out *Outcome) {
 		return out
 	case "query", "parsequery":
 		var items []any
-		items, err = p.Query(ctx, doc, opts...)
+		if op.Via == "exec" {
+			items, err = exec.Query(ctx, p.AST, doc, opts...)
+		} else {
+			items, err = p.Query(ctx, doc, opts...)
+		}
 		if items == nil {
 			ret = "noitems"
 		} else {
 			ret = items
 		}
 	case "first":
-		ret, err = p.First(ctx, doc, opts...)
+		if op.Via == "exec" {
+			ret, err = exec.First(ctx, p.AST, doc, opts...)
+		} else {
+			ret, err = p.First(ctx, doc, opts...)
+		}
 	case "exists":
-		ret, err = p.Exists(ctx, doc, opts...)
+		if op.Via == "exec" {
+			ret, err = exec.Exists(ctx, p.AST, doc, opts...)
+		} else {
+			ret, err = p.Exists(ctx, doc, opts...)
+		}
 	case "match":
-		ret, err = p.Match(ctx, doc, opts...)
+		if op.Via == "exec" {
+			ret, err = exec.Match(ctx, p.AST, doc, opts...)
+		} else {
+			ret, err = p.Match(ctx, doc, opts...)
+		}
 	case "existsormatch":
 		ret, err = p.ExistsOrMatch(ctx, doc, opts...)
 	}
@@ -1310,4 +1356,21 @@ func churn(seed int) (summary string, mismatch string) {
 		}
 	}
 	return fmt.Sprintf("churn: %d rounds", rounds), mismatch
+}
+
+// bumpVars changes, in place, the top-level scalar values of a variables map
+// (numbers + 1, strings + "_"): same map, same keys, new values.
+func bumpVars(vars exec.Vars) {
+	for k, v := range vars {
+		switch v := v.(type) {
+		case float64:
+			vars[k] = v + 1
+		case json.Number:
+			if f, err := v.Float64(); err == nil {
+				vars[k] = json.Number(strconv.FormatFloat(f+1, 'g', -1, 64))
+			}
+		case string:
+			vars[k] = v + "_"
+		}
+	}
 }
